@@ -59,8 +59,8 @@ class C20(Prop):
                 pool.append("addfn:%s:%s" % (vlib.hx(f), kind))
             rng.shuffle(pool)
             ops += pool
-            if rng.random() < 0.1:
-                ops.append("exec:0")            # Execute before Prepare
+            if rng.random() < 0.15:
+                ops.append(rng.choice(["exec:0", "run:0", "run:0", "dump"]))            # Execute / Run / Dump before Prepare
             ops.append("prepare:" + rng.choice(["opt", "noopt"]))
             for _ in range(rng.randint(1, 5)):
                 r = rng.random()
@@ -111,7 +111,10 @@ class C20(Prop):
             a, b = go.get(cs[0].cid), go.get(cs[1].cid)        # run, exec
             if not a or not b:
                 continue
-            k = max(int(x[1:].split(".")[0]) for x in a if x[0] == "o" and "." in x)
+            ks = [int(x[1:].split(".")[0]) for x in a if x[0] == "o" and "." in x]
+            if not ks:
+                continue               # (a hung or crashed history is reported by the runner itself)
+            k = max(ks)
             ca, cb = a.get("o%d.class" % k), b.get("o%d.class" % k)
             if (ca == "ok") != (cb == "ok"):
                 out.append((cs[0], "Run and Execute disagree on failure: Run %s, Execute %s" % (ca, cb)))
